@@ -274,7 +274,7 @@ def judge_traces(ctx, results, source):
         ideal = {f: wire_to_py(x["ideal"]) for f, x in fs.items()}
         spec_disk = {f: wire_to_py(x["v"]) if x["ex"] else ABSENT for f, x in fs.items()}
         rec_res, rec_post = raw[n - 1][:2], raw[n - 1][2]
-        bad = _postconditions(ev, rec_res, rec_post, ideal, mis["depth"])
+        bad = _postconditions(ev, rec_res, rec_post, ideal, mis["depth"], mis["own"])
         desc = ("%s: step %d %s(%s): real result %r files %r; spec result %r files %r; plain dict %r; operations: %s"
                 % (source, n, ev["op"], ev.get("h"), rec_res, rec_post, mis["res"]["exc"] or wire_to_py(mis["res"]["v"]), spec_disk, ideal, _short(evs[:n])))
         if bad:
@@ -287,7 +287,7 @@ def judge_traces(ctx, results, source):
     return stats
 
 
-def _postconditions(ev, res, post, ideal, depth):
+def _postconditions(ev, res, post, ideal, depth, own=False):
     """post-conditions of the property on a recorded real step (res = (exc mro, value), post = files)"""
     bad = []
     exc, ret = res
@@ -298,6 +298,8 @@ def _postconditions(ev, res, post, ideal, depth):
             bad.append("file!=dict")
         if ev["op"] == "read" and exc is None and not eq_exact(ret, ideal[ev["h"][0]]):
             bad.append("read!=dict")
+    elif own and ev["op"] == "read" and exc is None and not eq_exact(ret, ideal[ev["h"][0]]):
+        bad.append("read-own-writes")
     return bad
 
 
@@ -351,14 +353,14 @@ def slices(quick):
 def graph_slice(ctx, name, consts, flags, frac, rnd, procs):
     """dump the state graph of one slice, cover every edge, replay; returns traces for the variant runs"""
     dump = os.path.join(ctx.work, "g_%s" % name)
-    cfgt = tlc.cfg(_consts(flags, **consts), invariants=MECH, constraints=["LevelBound"])
-    r = tlc.run(SPEC, cfg_text=cfgt, workdir=os.path.join(ctx.work, "mc_" + name), workers=procs, coverage=False, dump=dump, allow_violation=False)
+    cfgt = tlc.cfg(_consts(flags, **consts), invariants=MECH, constraints=["LevelBound"], view="GraphView")
+    r = tlc.run(SPEC, cfg_text=cfgt, workdir=os.path.join(ctx.work, "mc_" + name), workers=1, coverage=False, dump=dump, allow_violation=False)
     docutil.WANT = ("disk", "ideal", "depth", "dev", "last", "writers")
     nodes, edges, init = docutil.load_graph(dump + ".dot", procs=procs)
     os.remove(dump + ".dot")
     ops = {}
     for u, v in edges:
-        o = nodes[v]["last"]["op"]
+        o = nodes.op(v)
         ops[o] = ops.get(o, 0) + 1
     r.actions = {o: (n, n) for o, n in ops.items()}      # action coverage read off TLC's exported graph
     ctx.add_tlc("slice %s: state graph (level <= %s)" % (name, consts["MaxLevel"]), r)
@@ -455,6 +457,8 @@ def run(ctx):
         "child objects (doc['n']) are not held across operations",
     ]
     flags = probe(ctx)
+    import signac
+    ctx.cov["signac_under_test"] = os.path.dirname(signac.__file__)
     ctx.cov["deviation_flags"] = dict(flags)
     ctx.cov["calibrated_rules"] = {"R1 pop(k) of an absent key returns None instead of raising KeyError (state unaffected)": flags["PopAbsentNone"],
                                    "a document file that was never written equals the empty document": True}
@@ -474,7 +478,7 @@ def run(ctx):
                        dict(Files='{"j1", "j2", "p"}', JobFiles='{"j1", "j2"}', NHJob=2, NHProj=2, Ops="<- OpsAll", Vals="<- VStruct", NVals="<- NVTypes",
                             MapArgs="<- MapsSmall", Caps="<- CapsAll", MaxLevel=4)))
     for name, c in proofs:
-        cfgt = tlc.cfg(_consts(fixed, **c), invariants=MECH + REQS + ["NoDeviation"], properties=["BufferTransparent"], constraints=["LevelBound"], view="NoLastView")
+        cfgt = tlc.cfg(_consts(fixed, **c), invariants=MECH + REQS + ["NoDeviation"], properties=["BufferTransparent"], constraints=["LevelBound"], view="ProofView")
         r = tlc.run(SPEC, cfg_text=cfgt, workdir=os.path.join(ctx.work, "proof"), workers=procs, coverage=False, allow_violation=False)
         ctx.add_tlc("requirements on the repaired model: " + name, r)
 
@@ -490,7 +494,7 @@ def run(ctx):
         fl["Fixed" + d] = False
         for inv in ("Faithful", "ReadOwnWritesObs" if d == "D1" else "OtherHandleSeesObs"):
             cfgt = tlc.cfg(_consts(fl, **c), invariants=[inv], constraints=["LevelBound"])
-            r = tlc.run(SPEC, cfg_text=cfgt, workdir=os.path.join(ctx.work, "cex"), workers=procs, coverage=False, allow_violation=True)
+            r = tlc.run(SPEC, cfg_text=cfgt, workdir=os.path.join(ctx.work, "cex"), workers=1, coverage=False, allow_violation=True)
             ctx.add_tlc("deviation %s as the code: %s" % (d, inv), r)
             if r.violation is None:
                 continue
@@ -645,17 +649,30 @@ def selftest(ctx, flags):
 
 
 def replay(ctx, data):
-    """re-run one violation's operations on the real code and print every step"""
-    evs = data["ops"]
+    """re-run one violation's operations on the real code, print every step, and let TLC judge the recorded run again"""
+    evs = []
+    for ev in data["ops"]:
+        ev = dict(ev)
+        if ev.get("h"):
+            ev["h"] = tuple(ev["h"])
+        ev.setdefault("form", "")
+        evs.append(ev)
     sb = Sandbox(os.path.join(ctx.mkdtemp("replay"), "x"))
     try:
         for ev in evs:
-            ev = dict(ev)
-            if "h" in ev and ev["h"]:
-                ev["h"] = tuple(ev["h"])
             exc, ret = sb.apply(ev)
-            print("%-60s -> %r   files: %r" % (_short([ev]), exc[0] if exc else ret, sb.disk(docutil.TRACE_FILES)))
+            print("%-70s -> %r   files: %r" % (_short([ev]), exc[0] if exc else ret,
+                                              {f: x for f, x in sb.disk(docutil.TRACE_FILES).items() if x != ABSENT}))
     finally:
         sb.close()
     print("source:", data.get("source"))
-    return 1
+    flags = probe(ctx)
+    print("deviation flags probed on this tree:", flags)
+    st = judge_traces(ctx, validate_traces(ctx, "replay", [({"replay": True}, evs)], flags, 1), "replay")
+    for v in ctx.violations:
+        print("VIOLATION", v.signature)
+        print("  " + v.what)
+    for d in ctx.drift:
+        print("SPEC-DRIFT", d)
+    print(st)
+    return 1 if ctx.violations else 0
